@@ -542,12 +542,13 @@ func aGenBurst(t *rapid.T, e *aEnv, db, key int, fresh *int) []aOp {
 		n = rapid.SampledFrom([]int{200, 230, 260}).Draw(t, "burstHugeN")
 	}
 	mixedPrio := pct(t, "burstPrio") < 50
-	latePrio := false
+	latePrio, floodCancel := false, false
 	if !holders && pct(t, "burstFlood") < 30 {
 		// FIFO waiters beyond the in-line part of the wait container, then a waiter with a priority: the container
 		// is rebuilt as a priority queue
 		n = rapid.SampledFrom([]int{150, 270, 300}).Draw(t, "burstFloodN")
-		mixedPrio, latePrio = false, true
+		mixedPrio, latePrio = false, pct(t, "burstFloodKind") < 50
+		floodCancel = !latePrio
 	}
 	var ops []aOp
 	for i := 0; i < n; i++ {
@@ -563,6 +564,13 @@ func aGenBurst(t *rapid.T, e *aEnv, db, key int, fresh *int) []aOp {
 			}
 		}
 		ops = append(ops, op)
+	}
+	if floodCancel {
+		// cancel-wait unlocks for waiters of the in-line part and of the overflow ring of the FIFO wait container
+		for _, i := range []int{n - 5, rapid.IntRange(145, n-1).Draw(t, "floodCancelIdx"), rapid.IntRange(0, 140).Draw(t, "floodCancelIdxLow")} {
+			ops = append(ops, aOp{K: "unlock", C: 0, Db: db, Key: key, Id: ops[i].Id, F: ufCANCEL})
+		}
+		return ops
 	}
 	if holders && n >= 200 && pct(t, "burstDrainHead") < 35 {
 		// release the holders in grant order until holders of the map-backed overflow part have been promoted to the
